@@ -37,7 +37,10 @@ func auxOf(m *handler.Message) string {
 	return fmt.Sprintf("%d|%s|%s|%s", m.Timestamp, m.SentAt, m.StartOfWeek, m.ErrorMessage)
 }
 
-// refAux runs the uncorrupted stream through a fresh handler and returns the aux value of every message.
+// refAux runs a stream through a fresh handler and returns the aux value of every TYPED message, in order.
+// For C12 it is given the stream WITHOUT the victim frame: a frame rejected for its CRC must leave no trace in the
+// handler, so the typed neighbours must get exactly what they get when the victim is not there at all.  (Comparing with
+// the uncorrupted stream would be wrong: a valid MSM victim legitimately moves the handler's time state.)
 func refAux(in []byte) []string {
 	chIn := make(chan byte, len(in)+1)
 	for _, b := range in {
@@ -56,7 +59,9 @@ func refAux(in []byte) []string {
 				return r
 			}
 			mm := m
-			r = append(r, auxOf(&mm))
+			if mm.MessageType >= 0 {
+				r = append(r, auxOf(&mm))
+			}
 		case <-deadline:
 			return r
 		}
@@ -65,6 +70,12 @@ func refAux(in []byte) []string {
 
 var pendingRef []string
 var pendingV [2]int
+
+// timing knobs for the next runStream call: the producer pauses before sending byte number pauseAt (0-based),
+// the consumer stops receiving for stallFor after its first message
+var pauseAt = -1
+var pauseFor time.Duration
+var stallFor time.Duration
 type evClose struct {
 	Ev string `json:"ev"`
 }
@@ -103,8 +114,13 @@ func runStream(w *tr.Writer, in []byte, cls string, inCap, outCap, pace int, rng
 	go func() {
 		hdone <- tr.Recover(func() { h.HandleMessages(chIn, chOut) })
 	}()
+	pAt, pFor, sFor := pauseAt, pauseFor, stallFor
+	pauseAt, pauseFor, stallFor = -1, 0, 0
 	go func() {
 		for i, b := range in {
+			if i == pAt {
+				time.Sleep(pFor)
+			}
 			chIn <- b
 			if pace&1 != 0 && i%7 == 0 {
 				runtime.Gosched()
@@ -125,6 +141,10 @@ loop:
 			}
 			mm := m
 			w.Emit(evMsg{"msg", m.MessageType, tr.Ints(m.RawData), auxOf(&mm)})
+			if sFor > 0 {
+				time.Sleep(sFor) // the consumer stalls once, while the producer keeps feeding
+				sFor = 0
+			}
 			if pace&2 != 0 {
 				runtime.Gosched()
 				if pace == 3 && rng.Intn(4) == 0 {
@@ -250,7 +270,7 @@ func framer(args []string) {
 			v := frames[rng.Intn(len(frames))]
 			c, what := gen.Corrupt(rng, s[v[0]:v[1]], k)
 			t := append(append(append([]byte{}, s[:v[0]]...), c...), s[v[1]:]...)
-			pendingRef, pendingV = refAux(s), [2]int{v[0], v[1]}
+			pendingRef, pendingV = refAux(gen.Cat(s[:v[0]], s[v[1]:])), [2]int{v[0], v[1]}
 			run(t, cls+" victim@"+fmt.Sprint(v[0])+" "+what)
 		}
 		// every payload length (thorough) / boundaries + sample (quick), every type class
@@ -313,6 +333,42 @@ func framer(args []string) {
 			s := gen.Cat(j1, a, j2, b, gen.Junk(rng, rng.Intn(4), 0))
 			victimize(s, [][2]int{{len(j1), len(j1) + len(a)}, {len(j1) + len(a) + len(j2), len(j1) + len(a) + len(j2) + len(b)}}, n, fmt.Sprintf("junk%d", n))
 		}
+		// junk runs of exactly 0..4 bytes around a frame (the victim in C12)
+		for n1 := 0; n1 <= 4; n1++ {
+			for n2 := 0; n2 <= 4; n2++ {
+				if !thorough && (n1+n2+int(tr.Seed()))%3 != 0 && n1 != 1 && n2 != 1 {
+					continue
+				}
+				a := gen.Frame(rng, gen.TypeClass(rng, n1), 1+rng.Intn(20), 0)
+				v := gen.Frame(rng, gen.TypeClass(rng, n2+3), 1+rng.Intn(20), 0)
+				b := gen.Frame(rng, gen.TypeClass(rng, n1+n2), 1+rng.Intn(20), 0)
+				j1, j2 := gen.Junk(rng, n1, (n1+n2)%3), gen.Junk(rng, n2, n1%3)
+				s := gen.Cat(a, j1, v, j2, b)
+				victimize(s, [][2]int{{len(a) + n1, len(a) + n1 + len(v)}}, 4+n1, fmt.Sprintf("junk%d-frame-junk%d", n1, n2)) // kind 4..: a CRC byte altered
+			}
+		}
+		// the producer goes quiet for 0.6 s at a chosen byte: after the first byte of a junk run, inside a leader, inside a payload, before a CRC
+		{
+			a := gen.Frame(rng, 1005, 19, 0)
+			j := gen.Junk(rng, 3, 1)
+			b := gen.Frame(rng, 1006, 21, 0)
+			c2 := gen.Frame(rng, 1230, 4, 0)
+			s := gen.Cat(a, j, b, c2)
+			at := []int{len(a) + 1, len(a) + 2, len(a), len(a) + len(j) + 1, len(a) + len(j) + 2, len(a) + len(j) + 10, len(s) - 3, 1, 4}
+			if !thorough {
+				at = at[:5]
+			}
+			for _, p := range at {
+				pauseAt, pauseFor = p, 600*time.Millisecond
+				if corrupt {
+					c, what := gen.Corrupt(rng, b, 4)
+					pendingRef, pendingV = refAux(gen.Cat(a, j, c2)), [2]int{len(a) + len(j), len(a) + len(j) + len(b)}
+					run(gen.Cat(a, j, c, c2), fmt.Sprintf("pause@%d %s", p, what))
+				} else {
+					run(s, fmt.Sprintf("pause@%d", p))
+				}
+			}
+		}
 		// truncation of the last frame at every byte
 		for i := 0; i < 1*scale; i++ {
 			head := gen.Cat(gen.Junk(rng, rng.Intn(5), 1), gen.Frame(rng, gen.TypeClass(rng, i), 1+rng.Intn(9), 0))
@@ -357,8 +413,7 @@ func framer(args []string) {
 				default:
 					cv[6], cv[7], cv[8] = 0, 0, 1 // claims the start of the week
 				}
-				s := gen.Cat(a, v, b, c2)
-				pendingRef, pendingV = refAux(s), [2]int{len(a), len(a) + len(v)}
+				pendingRef, pendingV = refAux(gen.Cat(a, b, c2)), [2]int{len(a), len(a) + len(v)}
 				run(gen.Cat(a, cv, b, c2), "msm-timestamp-damage")
 			}
 			// every single bit of a short frame's payload+CRC (thorough: several frames)
@@ -369,7 +424,7 @@ func framer(args []string) {
 				for bit := 24; bit < len(f)*8; bit++ {
 					c := append([]byte{}, f...)
 					c[bit/8] ^= 1 << uint(7-bit%8)
-					pendingRef, pendingV = refAux(gen.Cat(pre, f, post)), [2]int{len(pre), len(pre) + len(f)}
+					pendingRef, pendingV = refAux(gen.Cat(pre, post)), [2]int{len(pre), len(pre) + len(f)}
 					run(gen.Cat(pre, c, post), fmt.Sprintf("everybit %d", bit))
 				}
 			}
@@ -402,6 +457,24 @@ func framer(args []string) {
 		for _, plen := range gen.Lens(rng, false, 4*scale) {
 			f := gen.Frame(rng, gen.TypeClass(rng, plen), plen, 0)
 			run(gen.Cat(f, f[:rng.Intn(len(f))]), fmt.Sprintf("len%d+tail", plen))
+		}
+		// the consumer stops receiving for a while after its first message while 30-60 further messages arrive
+		for k := 0; k < 3*scale; k++ {
+			var s []byte
+			for m := 0; m < 30+rng.Intn(30); m++ {
+				s = append(s, gen.Frame(rng, gen.TypeClass(rng, m), 1+rng.Intn(10), 0)...)
+				if m%9 == 4 {
+					s = append(s, gen.Junk(rng, 1+rng.Intn(4), 1)...)
+				}
+			}
+			stallFor = time.Duration(120+60*k) * time.Millisecond
+			run(s, "consumer-stall")
+		}
+		// the producer goes quiet for 0.6 s in the middle of the stream
+		for k := 0; k < 2*scale; k++ {
+			s := gen.Cat(gen.Frame(rng, 1005, 19, 0), gen.Junk(rng, 2, 1), gen.Frame(rng, 1077, 30, 0), []byte{0xd3, 0})
+			pauseAt, pauseFor = []int{len(s) - 1, 26, 27, 30}[k%4], 600*time.Millisecond
+			run(s, "producer-pause")
 		}
 		for pos := 2; pos <= 6; pos++ {
 			f := gen.FrameWithStartByteAt(rng, pos, pos%4)
